@@ -718,6 +718,57 @@ def builtin_runs(ctx, work):
         # the source files are foreign files: never modified
         ok_src = all(open(os.path.join(srcdir, k), "rb").read() == cl.content(k) for k in ("A", "B", "C"))
         ctx.check("C19.fault:others-intact", ok_src, wit, key="C19:builtin:file:source")
+    # ---- file:// resource + a post-processor that rewrites the downloaded file in place and fails half-way, while the
+    #      same object is already cached raw under another key: only the discarded download may be affected
+    for parallel in (False, True):
+        wit = {"builtin": "file+inplace-postprocess", "parallel": parallel}
+        shutil.rmtree(root, ignore_errors=True)
+        shutil.rmtree(srcdir, ignore_errors=True)
+        os.makedirs(srcdir)
+        raw = cl.content("A")
+        srcf = os.path.join(srcdir, "A")
+        with open(srcf, "wb") as fh:
+            fh.write(raw)
+        state = {"fail": True}
+
+        def pp_inplace(path):
+            with open(path, "r+b") as fh:
+                data = fh.read()
+                fh.seek(0)
+                fh.truncate()
+                fh.write(b"# decoded\n" + data[: len(data) // 2].upper())
+                if state["fail"]:
+                    raise cl.Boom("post-processing failed half-way")
+                fh.write(data[len(data) // 2:].upper())
+        ctx.case(("builtin-file-inplace", parallel), nontrivial=True)
+        try:
+            with warnings.catch_warnings():
+                warnings.simplefilter("ignore")
+                cache = FileCache(root, 1e-3, parallel=parallel)
+                cache.disable_progress_bar = True
+                cache.set_directive_function("postprocess", "dec", pp_inplace)
+                praw = cache[f"file://{srcf}"][0]
+                raised = None
+                try:
+                    cache[f"postprocess=dec:file://{srcf}<<decoded"]
+                except Exception as e:
+                    raised = e
+                    cl.quiesce()
+                ctx.count("C19.faults_delivered")
+                ctx.check("C19.fault:others-intact", os.path.exists(praw) and cl.read_noatime(praw) == raw, wit,
+                          {"what": "raw entry cached earlier", "raised": repr(raised)}, key="C19:builtin:file-inplace:cached")
+                ctx.check("C19.fault:others-intact", open(srcf, "rb").read() == raw, wit, {"what": "source file"},
+                          key="C19:builtin:file-inplace:source")
+                state["fail"] = False
+                p2 = cache[f"postprocess=dec:file://{srcf}<<decoded"][0]
+                ctx.check("C19.retry:returned-bytes", cl.read_noatime(p2) == b"# decoded\n" + raw.upper(), wit,
+                          key="C19:builtin:file-inplace:retry")
+                ctx.check("C19.fault:others-intact", cl.read_noatime(praw) == raw and open(srcf, "rb").read() == raw, wit,
+                          {"what": "raw entry / source after the successful retry"}, key="C19:builtin:file-inplace:after-retry")
+        except Exception as e:
+            import traceback
+            ctx.check("C19.no-harness-surprise", False, wit, {"exception": repr(e), "traceback": traceback.format_exc(limit=6)},
+                      key="C19:builtin:file-inplace:exception")
     shutil.rmtree(root, ignore_errors=True)
     shutil.rmtree(srcdir, ignore_errors=True)
 
